@@ -249,56 +249,79 @@ func ruleREC234(c *Ctx) {
 		}
 		okAccept := false
 		if loop != nil && loop.Cond == nil {
-			breaks := 0
-			acceptBreak := false
-			var walk func(n ast.Node, depth int)
-			walk = func(n ast.Node, depth int) {
+			par := parents(fd)
+			isAcceptFact := func(e ast.Expr, pos bool) bool {
+				l, op, r, ok := cmpFact(e, pos)
+				if !ok || op != token.EQL {
+					return false
+				}
+				k1, _ := usesObj(info, r).(*types.Const)
+				k2, _ := usesObj(info, l).(*types.Const)
+				return (k1 != nil && k1.Name() == "accept") || (k2 != nil && k2.Name() == "accept")
+			}
+			// breaks that leave the main loop
+			okBreaks, nBreaks := true, 0
+			var walk func(n ast.Node)
+			walk = func(n ast.Node) {
 				ast.Inspect(n, func(m ast.Node) bool {
 					switch x := m.(type) {
-					case *ast.ForStmt, *ast.RangeStmt, *ast.SwitchStmt, *ast.FuncLit:
+					case *ast.ForStmt, *ast.RangeStmt, *ast.FuncLit:
 						if m != n {
-							return false // nested break targets
+							return false
 						}
+					case *ast.SwitchStmt:
+						// an unlabeled break inside a switch leaves the switch, not the loop
+						for _, cl := range x.Body.List {
+							for _, st := range cl.(*ast.CaseClause).Body {
+								ast.Inspect(st, func(k ast.Node) bool {
+									switch y := k.(type) {
+									case *ast.ForStmt, *ast.RangeStmt, *ast.FuncLit, *ast.SwitchStmt:
+										return false
+									case *ast.BranchStmt:
+										if y.Tok == token.BREAK && y.Label != nil {
+											nBreaks++
+											if !holds(pathConds(info, par, y), isAcceptFact) {
+												okBreaks = false
+											}
+										}
+									}
+									return true
+								})
+							}
+						}
+						return false
 					case *ast.BranchStmt:
 						if x.Tok == token.BREAK {
-							breaks++
-						}
-					case *ast.IfStmt:
-						if be, ok := x.Cond.(*ast.BinaryExpr); ok && be.Op == token.EQL {
-							if k, ok := usesObj(info, be.Y).(*types.Const); ok && k.Name() == "accept" && len(x.Body.List) == 1 {
-								if b, ok := x.Body.List[0].(*ast.BranchStmt); ok && b.Tok == token.BREAK {
-									acceptBreak = true
-								}
+							nBreaks++
+							if !holds(pathConds(info, par, x), isAcceptFact) {
+								okBreaks = false
 							}
 						}
 					}
 					return true
 				})
 			}
-			walk(loop.Body, 0)
-			// statements after the loop: only `return true`
-			tail := true
-			seenLoop := false
-			for _, s := range fd.Body.List {
-				if s == ast.Stmt(loop) {
-					seenLoop = true
-					continue
-				}
-				if seenLoop {
-					rs, ok := s.(*ast.ReturnStmt)
-					if !ok || exprString(rs.Results[0]) != "true" {
-						tail = false
-					}
-				}
-			}
-			nTrue := 0
+			walk(loop.Body)
+			// every `return true`: inside the loop under the accept condition, or right after the loop
+			okReturns, nTrue := true, 0
 			ast.Inspect(fd.Body, func(m ast.Node) bool {
-				if rs, ok := m.(*ast.ReturnStmt); ok && len(rs.Results) == 1 && exprString(rs.Results[0]) == "true" {
-					nTrue++
+				rs, ok := m.(*ast.ReturnStmt)
+				if !ok || len(rs.Results) != 1 || exprString(rs.Results[0]) != "true" {
+					return true
+				}
+				nTrue++
+				if containsNode(loop, rs) {
+					if !holds(pathConds(info, par, rs), isAcceptFact) {
+						okReturns = false
+					}
+				} else if rs.Pos() < loop.End() {
+					okReturns = false
+				} else if nBreaks == 0 {
+					okReturns = false // unreachable or reached otherwise
 				}
 				return true
 			})
-			okAccept = breaks == 1 && acceptBreak && tail && nTrue == 1
+			okAccept = okBreaks && okReturns && nTrue >= 1
 		}
 		c.check(okAccept, "REC-2", variant+"/parse/success-only-by-accept", ti.Pos(fd.Pos()),
 			"the only `return true` of parse follows the loop, and the loop is left only by the break of the `action == accept` branch", "parse can return true without having taken the accept action")
@@ -409,12 +432,11 @@ func ruleREC234(c *Ctx) {
 				}
 				return true
 			})
-			pro := findRowPrologue(info, me.Body)
 			okExp := false
-			if pro != nil && pro.tblName == "_actions" {
+			if rowReaderOK(info, me.Body, "_actions") {
 				ast.Inspect(me.Body, func(m ast.Node) bool {
 					if call, ok := m.(*ast.CallExpr); ok && builtinName(info, call) == "append" && len(call.Args) == 2 && strings.HasSuffix(exprString(call.Args[0]), ".Expected") {
-						if ix, ok := stripConv(info, call.Args[1]).(*ast.IndexExpr); ok && exprString(ix.X) == "_actions" && exprString(ix.Index) == pro.idx {
+						if ix, ok := stripConv(info, call.Args[1]).(*ast.IndexExpr); ok && exprString(ix.X) == "_actions" {
 							okExp = true
 						}
 					}
@@ -705,13 +727,21 @@ func ruleBND2(c *Ctx) {
 		})
 	}
 	okCb := false
-	if cb != nil && cbIf != nil && nCb == 1 && len(cb.Args) == 3 {
+	if cb != nil && nCb == 1 && len(cb.Args) == 3 {
 		resVar := ""
 		if as, ok := reduce.List[iAct].(*ast.AssignStmt); ok {
 			resVar = exprString(as.Lhs[0])
 		}
-		okCb = exprString(cbIf.Cond) == "!"+boundsVar+".Empty" && exprString(cb.Args[0]) == resVar && exprString(cb.Args[1]) == boundsVar+".Begin" && exprString(cb.Args[2]) == boundsVar+".End"
+		facts := pathConds(info, parents(reduce), cb)
+		nonEmpty := holds(facts, func(e ast.Expr, pos bool) bool {
+			if !pos && exprString(e) == boundsVar+".Empty" {
+				return true
+			}
+			return pos && exprString(e) == "len("+sliceVar+") > 0"
+		})
+		okCb = nonEmpty && exprString(cb.Args[0]) == resVar && exprString(cb.Args[1]) == boundsVar+".Begin" && exprString(cb.Args[2]) == boundsVar+".End"
 	}
+	_ = cbIf
 	c.check(okCb, rule, "template/parse/reduce/callback", ti.Pos(reduce.Pos()), "_onBounds(res, Begin, End) is called exactly once, after the action, only when the span is non-empty", "_onBounds is not called exactly once after the action under `!bounds.Empty` with (result, Begin, End)")
 	// pushed item carries the bounds
 	okPush := false
